@@ -436,14 +436,10 @@ def _extract_branch(req, counter):
                 or o.startswith("STORE_"):
             break
         k -= 1
+    # the first guard's expression begins at the last line start at or before it
     start = first
     while start > k + 1 and ins[start].starts_line is None:
         start -= 1
-    # the first guard's expression begins at the last line start at or before it
-    s2 = first
-    while s2 > k + 1 and ins[s2].starts_line is None:
-        s2 -= 1
-    start = s2
     for name in req.co_varnames[:req.co_argcount]:
         m.env[name] = ("local", name)
     m.env["self"] = SELF
@@ -458,6 +454,8 @@ def _extract_branch(req, counter):
         i = ins[pc]
         op = i.opname
         if op in ("LOAD_FAST", "LOAD_FAST_CHECK"):
+            if i.argval not in m.env:
+                m.refuse(i, "unknown local")
             m.push(m.env[i.argval])
         elif op == "LOAD_CONST":
             m.push(("const", i.argval))
@@ -675,9 +673,14 @@ class _CoopLock:
 
 
 def wrap_locks(obj):
-    for name, val in list(vars(obj).items()):
-        if isinstance(val, _LOCK_TYPES):
-            setattr(obj, name, _CoopLock(val))
+    """every lock reachable as an attribute of the implementation object (its own or its class's) is
+    shadowed on the instance by a cooperative wrapper around the same lock"""
+    found = {}
+    for cls in reversed(type(obj).__mro__):
+        found.update({n: v for n, v in vars(cls).items() if isinstance(v, _LOCK_TYPES)})
+    found.update({n: v for n, v in vars(obj).items() if isinstance(v, _LOCK_TYPES)})
+    for name, val in found.items():
+        setattr(obj, name, _CoopLock(val))
 
 
 _WARM = set()
@@ -1502,19 +1505,24 @@ ASSUMPTIONS = ["the counter is an int whenever _generate_request_id runs (do_req
 KNOWN = {}
 
 LEVEL_TEXT = ("Proved in Lean for every program of the WellLocked shape, any number of threads and EVERY schedule "
-              "(invariant + ghost-log refinement, no enumeration): returned numbers pairwise distinct within and "
-              "between threads, gap-free ({c..c'-1} at quiescence, counter advanced by the number of calls), "
-              "increasing per thread (locked_unique, locked_gap_free, locked_in_order, par_ids = the function the "
-              "driver executes for a forced schedule). program_ok: the instruction list extracted on every run from "
-              "the bytecode of _generate_request_id is WellLocked (decide). format_injective: the extracted id "
-              "format is injective in the number; caller_id: a request with its own X-Request-ID in any "
-              "capitalisation changes no counter and keeps its headers; derived_shares: derived connections use the "
-              "parent's counter. model = code: sequential scenarios and forced interleavings of real threads inside "
+              "(invariant + ghost-log refinement to 'take a number atomically', no enumeration): returned numbers "
+              "pairwise distinct within and between threads (locked_unique), no gaps and no foreign numbers at any "
+              "moment (locked_gap_free), increasing per thread (locked_in_order); par_ids / par_total = the function "
+              "the driver executes for a forced schedule always terminates (no deadlock) and hands out exactly "
+              "{c..c'-1}, c' - c = number of calls; par_world = the same on what is sent: ids of concurrent requests "
+              "of one connection family are pairwise distinct renderings of the next #ids numbers, requests with "
+              "their own id keep their headers and take nothing. program_ok / format_ok / header_test_ok: the "
+              "instruction list, id format and header test extracted on every run from the bytecode of "
+              "_generate_request_id / do_request have the required shape (decide). format_injective, caller_id (any "
+              "capitalisation), request_auto (sequential: counter + 1, header = rendering of the old counter), "
+              "derived_shares. model = code: sequential scenarios and forced interleavings of real threads inside "
               "the real function (opcode-level scheduler) compared id by id with the compiled model.")
 LEVEL_NOTE = ("Partial by nature: CPython's 'threads switch only between bytecodes' and threading.Lock are trusted, not "
-              "proved; the translator (dis + symbolic stack evaluation, cross-checked against a traced call) and the "
-              "adapter are trusted; model = code only on the sampled scenarios and schedules. do_request's id branch "
-              "is modelled by hand around two generated constants (header test, header name); adapters that would "
-              "themselves add an X-Request-ID are not modelled.")
+              "proved; exception paths of the with statement (asynchronous exceptions) are not modelled; the "
+              "translator (dis + symbolic stack evaluation, cross-checked against a traced call) and the adapter are "
+              "trusted; model = code only on the sampled scenarios and schedules (all pairs of stop positions for two "
+              "threads are exhaustive). do_request's id branch is modelled by hand around two generated constants "
+              "(header test, header name); adapters that would themselves add an X-Request-ID are not modelled; "
+              "header names are ASCII.")
 TECHNIQUE = ("Lean 4 invariant proof over all schedules of a bytecode-extracted instruction list + decide on the "
              "generated program + forced-interleaving differential test (sys.settrace opcode scheduler)")
